@@ -162,6 +162,45 @@ def file_resource_leak(alias: int, u0: int, u1: int, u2: int, wrap: int) -> bool
     return fin(before == after)
 
 
+def sql_parameterization(style: int, nparams: int, split: int, var: int) -> bool:
+    """sql-parameterization (complete real pipeline: linearisation, format-string parsing, quote surgery, clean-up
+    passes) on a closed sqlite3 program whose query is built INSIDE A FUNCTION from 1-3 parameters by `+`, an f-string,
+    printf `%` or str.format, written as one literal, adjacent literals or literals joined with `+` (the split falling
+    between the placeholder and its closing quote), inline or through a variable: executed against an in-memory
+    database with each of 4 benign value tuples, the rewritten program prints the same rows and raises the same
+    exception type as the original.
+    pre: 1 <= nparams <= 3
+    post: _
+    """
+    from harness import sqlfam
+    from vlib.core import fin
+
+    return fin(sqlfam.check(style, nparams, split, 1, var) is None)
+
+
+def sql_parameterization_module(style: int, nparams: int, split: int, var: int) -> bool:
+    """The same family with the query built at module level.
+    pre: 1 <= nparams <= 3
+    post: _
+    """
+    from harness import sqlfam
+    from vlib.core import fin
+
+    return fin(sqlfam.check(style, nparams, split, 0, var) is None)
+
+
+def sast_refactorings(which: int, style: int, args: int, decoy: int, layout: int) -> bool:
+    """fix-deprecated-logging-warn through the detector-driven family (harness/hardsast.py): `logging.warn` under 4
+    import styles x argument lists x surroundings x layouts becomes `warning` with every argument kept in order -
+    `warn` is documented as an alias of `warning`, so equal callee-and-arguments is observational equivalence.
+    post: _
+    """
+    from harness import hardsast
+    from vlib.core import fin
+
+    return fin(hardsast.check("fix-deprecated-logging-warn", style, args, decoy, layout) is None)
+
+
 def _load_registry():
     from codemodder.registry import load_registered_codemods
 
@@ -177,6 +216,9 @@ def warmup():
     use_generator_call(2, 1, False, False, False)
     walrus_if(0, 0, 1, 2, 0)
     file_resource_leak(1, 0, 1, 2, 1)
+    sql_parameterization(2, 2, 1, 1)
+    sql_parameterization_module(0, 1, 0, 0)
+    sast_refactorings(0, 1, 1, 1, 1)
 
 
 SPEC = {
@@ -189,9 +231,11 @@ SPEC = {
         "CombineCallsBaseCodemod.leave_BooleanOperation / matches_* / combine_*",
         "UseGenerator.leave_Call (E1 kernel over a symbolic call shape)",
         "the complete real pipelines of remove-unnecessary-f-str, use-set-literal, use-walrus-if and fix-file-resource-leak on selector-built programs (value comparison by exec)",
+        "sql-parameterization: complete real pipeline (SQLQueryParameterization, linearize_string_expression, format_string_parser, clean_code passes) on selector-built sqlite3 programs, exec oracle against an in-memory database",
+        "fix-deprecated-logging-warn: complete real transformer chain with one result placed on the call",
     ],
     "bounds": {
-        "quick": "grammar `r = <expr>`: not-prefixed comparison chains of 1-2 operators out of == != < > <= >= is 'is not' in 'not in' over int names, a bool name, True, None, 0 and a container, bare / parenthesised / inside and-or contexts; and/or trees of depth <= 1 and all 3-atom shapes (with and without parentheses) over 5 of 8 startswith/endswith atoms and 5 of 7 isinstance/issubclass atoms.  Value sorts: unbounded ints, bools, None; predicates uninterpreted; per element name a 'denotes a 2-tuple' flag",
+        "quick": "grammar `r = <expr>`: not-prefixed comparison chains of 1-2 operators out of == != < > <= >= is 'is not' in 'not in' over int names, a bool name, True, None, 0 and a container, bare / parenthesised / inside and-or contexts; and/or trees of depth <= 1 and all 3-atom shapes (with and without parentheses) over 5 of 8 startswith/endswith atoms and 5 of 7 isinstance/issubclass atoms.  Value sorts: unbounded ints, bools, None; predicates uninterpreted; per element name a 'denotes a 2-tuple' flag.  Whole-pipeline families (selector-built programs, exec oracle): use-generator, remove-unnecessary-f-str, use-set-literal, use-walrus-if, fix-file-resource-leak, sql-parameterization (4 construction styles x 1-3 parameters x 3 literal splits x inline / variable x function / module scope x 4 value tuples), fix-deprecated-logging-warn",
         "thorough": "chains of up to 3 operators, all 8 / 7 atoms, left-parenthesised and negated shapes",
     },
     "assumptions": [
@@ -210,5 +254,8 @@ SPEC = {
         __import__("vlib.main", fromlist=["Xh"]).Xh("set_literal", 300, 600),
         __import__("vlib.main", fromlist=["Xh"]).Xh("walrus_if", 400, 800),
         __import__("vlib.main", fromlist=["Xh"]).Xh("file_resource_leak", 400, 800),
+        __import__("vlib.main", fromlist=["Xh"]).Xh("sql_parameterization", 500, 900),
+        __import__("vlib.main", fromlist=["Xh"]).Xh("sql_parameterization_module", 500, 900),
+        __import__("vlib.main", fromlist=["Xh"]).Xh("sast_refactorings", 300, 600),
     ],
 }
